@@ -37,13 +37,17 @@ QUERIES = [
     # Decimal(1) are equal and hash alike: a memo keyed by the quantity would confuse them)
     "X1->X3 float",
     "X1->X3 Decimal",
+    "hub->z1",
+    "xc->z1",
+    "z1->xc",
+    "W1->W3 Decimal",
 ]
 QUICK_QUERIES = QUERIES
 # the property is about memoisation against declarations; the synthetic system carries it,
 # so only the SI module is loaded: failing path searches (the common case here) walk the
 # whole definition graph and are ~6x cheaper than with all seventeen modules
 MODULES = ("measured.si",)
-CORE_QUERIES = ["X1->m", "m->X1", "X1->X3", "X1==8*X3", "X1->X3 Decimal"]
+CORE_QUERIES = ["X1->m", "m->X1", "X1->X3", "X1==8*X3", "X1->X3 Decimal", "W1->W3 Decimal"]
 
 
 class Ctx:
@@ -75,6 +79,20 @@ def prepare(w):
     cu.equals(1 * w1**3)
     po.equals(2 * cu)
     va.equals(2 * w2**3)
+    # a statically declared CYCLE whose two routes disagree on purpose (xc -> hub -> z1 gives
+    # 0.21, xc -> p1 -> z1 gives 0.215): which route a query takes may depend on the
+    # declarations, never on what was asked before.  And a ratio of 21, so that a Decimal
+    # conversion is inexact and shows the decimal context it was computed in.
+    hub = Length.unit("verif hub", "vhub")
+    xc = Length.unit("verif xc", "vxc")
+    p1 = Length.unit("verif p1", "vp1")
+    z1 = Length.unit("verif z1", "vz1")
+    xc.equals(0.3 * hub)
+    hub.equals(0.7 * z1)
+    xc.equals(0.5 * p1)
+    p1.equals(0.43 * z1)
+    w3 = Length.unit("verif w3", "vw3")
+    w3.equals(21 * w1)
     w.clear_caches()
     w.base = w.snapshot()
     _PREPARED = True
@@ -162,6 +180,15 @@ class C08Model(Model):
                 from decimal import Decimal
 
                 v = (Decimal(1) * X[1]).in_unit(X[3]).magnitude
+            elif name in ("hub->z1", "xc->z1", "z1->xc"):
+                a_, b_ = name.split("->")
+                U_ = c.w.m.Unit._by_name
+                v = (60 * U_["verif " + a_]).in_unit(U_["verif " + b_]).magnitude
+            elif name == "W1->W3 Decimal":
+                from decimal import Decimal
+
+                U_ = c.w.m.Unit._by_name
+                v = (Decimal(1) * U_["verif w1"]).in_unit(U_["verif w3"]).magnitude
             elif name == "m->X1":
                 v = (1 * m).in_unit(X[1]).magnitude
             elif name == "X3^2->Z":
